@@ -442,31 +442,49 @@ func (o *ocfg) maySkip(p netip.Prefix, v4 netip.Addr) bool {
 
 // zoneExcluded: label-wise comparison from the right.
 func (o *ocfg) zoneExcluded(qname string) bool {
-	q := strings.Split(strings.TrimSuffix(strings.ToLower(qname), "."), ".")
+	// textual judgement (used for presentation-text query names and to recognise the
+	// allowed over-exclusion by a dot inside a label): the zone's labels rendered in
+	// presentation form, matched as a suffix at a dot of the rendered query name
+	q := strings.ToLower(qname)
 	for _, z := range o.zones {
-		zl := strings.Split(z, ".")
-		if len(zl) > len(q) {
-			continue
-		}
-		ok := true
-		for i := 1; i <= len(zl); i++ {
-			if zl[len(zl)-i] != q[len(q)-i] {
-				ok = false
-				break
-			}
-		}
-		if ok {
+		t := renderLabels(zoneTextLabels(z)) // the root zone "." is stored as "" and renders "."
+		if q == t || strings.HasSuffix(q, "."+t) {
 			return true
 		}
 	}
 	return false
 }
 
+// renderLabels writes labels in presentation form: a backslash before special
+// characters, \DDD for bytes outside the printable range, a dot after each label.
+func renderLabels(ls []string) string {
+	var sb strings.Builder
+	for _, l := range ls {
+		for i := 0; i < len(l); i++ {
+			c := l[i]
+			switch {
+			case strings.IndexByte(".\\()\";@ '", c) >= 0:
+				sb.WriteByte('\\')
+				sb.WriteByte(c)
+			case c < ' ' || c > '~':
+				fmt.Fprintf(&sb, "\\%03d", c)
+			default:
+				sb.WriteByte(c)
+			}
+		}
+		sb.WriteByte('.')
+	}
+	return strings.ToLower(sb.String())
+}
+
 // zoneExcludedLabels: the same judgement on the wire labels of the queried
 // name when the op carries them (a dot inside a label is not a boundary).
 func (o *ocfg) zoneExcludedLabels(qname string, qlabels [][]byte) bool {
 	if qlabels == nil {
-		return o.zoneExcluded(qname)
+		// presentation-text query name: read it the way a zone text is read
+		for _, l := range zoneTextLabels(strings.TrimSuffix(qname, ".")) {
+			qlabels = append(qlabels, []byte(l))
+		}
 	}
 	for _, z := range o.zones {
 		zl := zoneTextLabels(z)
@@ -475,7 +493,7 @@ func (o *ocfg) zoneExcludedLabels(qname string, qlabels [][]byte) bool {
 		}
 		ok := true
 		for i := 1; i <= len(zl); i++ {
-			if strings.ToLower(zl[len(zl)-i]) != strings.ToLower(string(qlabels[len(qlabels)-i])) {
+			if asciiLower(zl[len(zl)-i]) != asciiLower(string(qlabels[len(qlabels)-i])) {
 				ok = false
 				break
 			}
@@ -512,6 +530,17 @@ func zoneTextLabels(z string) []string {
 }
 
 func isDigit(b byte) bool { return b >= '0' && b <= '9' }
+
+// asciiLower folds A-Z only (label bytes are not text: no UTF-8 decoding).
+func asciiLower(s string) string {
+	b := []byte(s)
+	for i, c := range b {
+		if c >= 'A' && c <= 'Z' {
+			b[i] = c + 32
+		}
+	}
+	return string(b)
+}
 
 // mustSynthesise: every gate of the property statement is open, the AAAA
 // reply is one DNS64 does not pass through, and the error-free NOERROR A
